@@ -300,7 +300,7 @@ class Walk:
             self.subexpr(args[0], ln)
         elif any(n.startswith("compiler::Compiler::") and n != "compiler::Compiler::encode_if_then" for n in names):
             # any other Compiler method may emit instructions / raise located errors on behalf of the card being compiled
-            self.events.append(("emit", [n for n in names if n.startswith("compiler::Compiler::")][0], tuple(self.stack), ln))
+            self.events.append(("emit", [n for n in names if n.startswith("compiler::Compiler::")][0], tuple(self.stack), ln, self.scope))
         if "compiler::Compiler::encode_if_then" in names:
             # encode_if_then itself emits the conditional jump before it runs the callback
             self.events.append(("emit", "compiler::Compiler::encode_if_then", tuple(self.stack), ln, self.scope))
